@@ -43,6 +43,8 @@ def make_environ(path='/', method='GET', query='', headers=None, body=b'', host=
         'wsgi.multiprocess': False,
         'wsgi.run_once': False,
     }
+    if script_name is None:
+        del env['SCRIPT_NAME']            # PEP 3333: may be omitted when it would be empty
     if body or method in ('POST', 'PUT', 'PATCH'):
         env['CONTENT_LENGTH'] = str(len(body))
     for k, v in (headers or {}).items():
